@@ -12,3 +12,4 @@ open Pcore.Heap
 #print axioms C08_caches_safe
 #print axioms C08_cache_coherent
 #print axioms C08_stale_cache_breaks
+#print axioms C08_pointer_stable
